@@ -126,6 +126,7 @@ type Frame struct {
 	Aux int // ConnReq: layer; RoutingLost: count; RoutingBusy: wait ms
 	Str string
 	Aid int // arrival id (set by MemSock.Arrive)
+	Att int // connect attempt number (ConnReq frames, set by the driver; not on the wire)
 }
 
 func (f Frame) ev(k string) Ev {
